@@ -449,3 +449,144 @@ package client
 //@   ensures len(old) > 0 ==> len(result) == len(old) && result[:len(old)-1] == old[:len(old)-1]
 //@        && result[len(old)-1] != old[len(old)-1]
 //@ end
+
+// ---------------------------------------------------------------------------
+// line.go / dispatch.go: copies, handler invocation, panic recovery
+
+// copyOf(c, l): c carries the same components as l ...
+//@ pred sameScalars(c *Line, l *Line) := c.Nick == l.Nick && c.Ident == l.Ident && c.Host == l.Host && c.Src == l.Src
+//@     && c.Cmd == l.Cmd && c.Raw == l.Raw && c.Time == l.Time
+//@ pred sameArgs(c *Line, l *Line) := len(c.Args) == len(l.Args)
+//@     && (forall i int :: 0 <= i && i < len(l.Args) ==> c.Args[i] === l.Args[i])
+//@ pred sameTags(c *Line, l *Line) := (l.Tags == nil ==> c.Tags == nil)
+//@     && (l.Tags != nil ==> c.Tags != nil && dom(c.Tags) === dom(l.Tags)
+//@         && (forall k int :: has(dom(l.Tags), k) ==> vals(c.Tags)[k] === vals(l.Tags)[k]))
+// ... in storage of its own: a new Line, a new Args backing array, a new Tags map.
+//@ pred ownStorage(c *Line, l *Line) := c != l && base(c.Args) != base(l.Args) && (l.Tags != nil ==> c.Tags != l.Tags)
+
+//@ func (*Line).Copy
+//@   property C15
+//@   safety C15
+//@   attr frame=checked
+//@   requires l != nil
+//@   modifies result.Tags, result.Nick, result.Ident, result.Host, result.Src, result.Cmd, result.Raw, result.Args, result.Time
+//@   modifies elems(result.Args), entries(result.Tags)
+//@   ensures result != nil && fresh(result) && fresh(result.Args) && (l.Tags != nil ==> fresh(result.Tags))
+//@   ensures sameScalars(result, l) && sameArgs(result, l) && sameTags(result, l) && ownStorage(result, l)
+//@   loop 0:
+//@     invariant nl != nil && fresh(nl) && nl.Tags != nil && fresh(nl.Tags) && l.Tags != nil
+//@     invariant fresh(nl.Args) && sameScalars(nl, l) && sameArgs(nl, l)
+//@     invariant forall k int :: has(dom(nl.Tags), k) <==> (has(dom(l.Tags), k) && has(visited(), k))
+//@     invariant forall k int :: has(visited(), k) && has(dom(l.Tags), k) ==> vals(nl.Tags)[k] === vals(l.Tags)[k]
+//@     invariant forall m map[string]string :: m != nl.Tags ==> dom(m) === preloop(dom(m)) && vals(m) === preloop(vals(m))
+//@ end
+
+// Object invariant of a client as far as event delivery needs it. It holds
+// whenever no method of the client is in the middle of changing it; user
+// handlers are assumed to preserve it (they only have the exported API).
+//@ pred setOK(hs *hSet) := hs != nil && hs.set != nil && held(hs.RWMutex) == 0
+//@     && (forall k int :: has(dom(hs.set), k) ==> vals(hs.set)[k] != nil)
+//@ pred connInv(conn *Conn) := conn != nil && conn.cfg != nil && conn.cfg.Recover != nil
+//@     && setOK(conn.intHandlers) && setOK(conn.fgHandlers) && setOK(conn.bgHandlers)
+//@     && conn.intHandlers != conn.fgHandlers && conn.intHandlers != conn.bgHandlers && conn.fgHandlers != conn.bgHandlers
+
+// The default Recover: stops the panic it is deferred for, never panics itself.
+//@ func (*Conn).LogPanic
+//@   property C16
+//@   safety C16
+//@   modifies $panicking, $log
+//@   ensures !$panicking
+//@ end
+
+// Config.Recover (a user-replaceable function value): assumed to recover, as
+// the default LogPanic is proved to, and to leave the client consistent.
+//@ func field:Config.Recover
+//@   params conn *Conn, line *Line
+//@   attr assumed
+//@   modifies $panicking, $log, $tr, $wire, heap
+//@   ensures !$panicking && connInv(conn)
+//@ end
+
+// A user or built-in handler: may do anything through the exported API, may
+// panic. By definition its invocation is the ghost event handler(h, line).
+// Assumed: it leaves the client consistent and releases the locks it takes.
+//@ func (Handler).Handle
+//@   params recv Handler, conn *Conn, line *Line
+//@   attr assumed, maypanic
+//@   requires connInv(conn)
+//@   modifies $tr, $log, $wire, heap
+//@   ensures $trlen > old($trlen) && $tr[old($trlen)] == ev("handler", recv, "", 0, line)
+//@   ensures connInv(conn)
+//@ end
+
+// hNode.Handle: the handler runs inside a region protected by the deferred
+// Recover, so Handle returns normally whatever the handler does (C16), and the
+// handler receives exactly the line it was given (C15, C04).
+//@ func (*hNode).Handle
+//@   property C16
+//@   safety C16
+//@   requires hn != nil && connInv(conn)
+//@   modifies $tr, $log, $wire, $panicking, heap
+//@   ensures $trlen > old($trlen) && $tr[old($trlen)] == ev("handler", old(hn.handler), "", 0, line)
+//@   ensures !$panicking && connInv(conn)
+//@ end
+
+// The goroutine body of hSet.dispatch: copies the line for this invocation
+// only (C15), hands the copy to exactly one Handle (C04), and always reaches
+// wg.Done (C16, C03).
+//@ func (*hSet).dispatch$1
+//@   property C15, C16, C03, C04
+//@   safety C02
+//@   bind c *Line := call client.(*Line).Copy 1
+//@   bind cOK bool := after client.(*Line).Copy 1 (sameScalars(c, line) && sameArgs(c, line) && sameTags(c, line) && ownStorage(c, line))
+//@   requires hn != nil && connInv(conn) && line != nil && wg != nil
+//@   modifies $tr, $log, $wire, $panicking, heap
+//@   ensures [C15] fresh(c) && c != line && cOK
+//@   ensures [C15,C04] $tr[old($trlen)] == ev("handler", old(hn.handler), "", 0, c)
+//@   ensures [C16,C03] $trlen >= old($trlen) + 2 && $tr[$trlen-1] == ev("wgdone", wg) && !$panicking
+//@   ensures connInv(conn)
+//@ end
+
+// getHandlers: a snapshot slice taken under the read lock, which is released
+// again before returning.
+//@ func (*hSet).getHandlers
+//@   property C04
+//@   safety C02
+//@   requires setOK(hs)
+//@   modifies $held, $tr, elems(result)
+//@   ensures $held === old($held)
+//@   ensures $trlen == old($trlen) + 2 && $tr[old($trlen)] == ev("rlock", hs.RWMutex) && $tr[old($trlen)+1] == ev("runlock", hs.RWMutex)
+//@   ensures forall i int :: 0 <= i && i < len(result) ==> result[i] != nil
+//@   ensures len(result) == 0 || fresh(result)
+//@   loop 0:
+//@     invariant forall i int :: 0 <= i && i < len(handlers) ==> handlers[i] != nil
+//@     invariant held(hs.RWMutex) == 2 && $held === upd(old($held), hs.RWMutex, 2)
+//@     invariant fresh(handlers)
+//@ end
+
+// hSet.dispatch: one goroutine per handler of the snapshot, each counted on
+// a WaitGroup that is new for this call, all spawned with no lock of the set
+// held, and a Wait on that WaitGroup before returning (with A2/A4: every
+// handler of this set has finished for this line when dispatch returns).
+//@ func (*hSet).dispatch
+//@   property C03, C04, C15, C16
+//@   safety C02
+//@   bind H []*hNode := call client.(*hSet).getHandlers 1
+//@   bind p0 int := after client.(*hSet).getHandlers 1 $trlen
+//@   requires connInv(conn) && line != nil && setOK(hs)
+//@   modifies $tr, $held, $wg, elems(H)
+//@   ensures $held === old($held)
+//@   ensures p0 == old($trlen) + 2 && $tr[old($trlen)] == ev("rlock", hs.RWMutex)
+//@   ensures $trlen == p0 + 2 * len(H) + 1
+//@   ensures fresh(wg) && wg != nil
+//@   ensures forall i int :: 0 <= i && i < len(H) ==> H[i] != nil
+//@        && $tr[p0 + 2*i] == ev("wgadd", wg, "", 1)
+//@        && $tr[p0 + 2*i + 1] == ev("spawn", fnid("client.(*hSet).dispatch$1"), "", 0, H[i])
+//@   ensures $tr[$trlen - 1] == ev("wgwait", wg)
+//@   loop 0:
+//@     invariant 0 <= #i && #i <= len(H) && $trlen == p0 + 2 * #i && wgcount(wg) == #i
+//@     invariant $held === old($held)
+//@     invariant forall i int :: 0 <= i && i < #i ==>
+//@           $tr[p0 + 2*i] == ev("wgadd", wg, "", 1)
+//@        && $tr[p0 + 2*i + 1] == ev("spawn", fnid("client.(*hSet).dispatch$1"), "", 0, H[i])
+//@ end
